@@ -158,15 +158,27 @@ var (
 	srvLog = vh.NewLogBuf()
 )
 
+// a second server advertises LITERAL+: non-synchronising literals of any size are then legal syntax, the
+// limits on what is buffered / appended are the same (transcripts whose name starts with "plus")
+var (
+	srvPlus *imapserver.Server
+	lnPlus  *vh.Listener
+)
+
 func startServer() {
-	srv, ln = newServer()
+	srv, ln = newServer(false)
+	srvPlus, lnPlus = newServer(true)
 }
 
 // newServer builds a server + listener (a private one is used for cases that end with Server.Close).
-func newServer() (*imapserver.Server, *vh.Listener) {
+func newServer(plus bool) (*imapserver.Server, *vh.Listener) {
 	ln := vh.NewListener()
+	caps := imap.CapSet{imap.CapIMAP4rev1: {}, imap.CapMove: {}, imap.CapNamespace: {}, imap.CapUnauthenticate: {}}
+	if plus {
+		caps[imap.CapLiteralPlus] = struct{}{}
+	}
 	srv := imapserver.New(&imapserver.Options{
-		Caps:         imap.CapSet{imap.CapIMAP4rev1: {}, imap.CapMove: {}, imap.CapNamespace: {}, imap.CapUnauthenticate: {}},
+		Caps:         caps,
 		InsecureAuth: true,
 		Logger:       srvLog,
 		NewSession: func(c *imapserver.Conn) (imapserver.Session, *imapserver.GreetingData, error) {
@@ -194,7 +206,13 @@ var transcripts = map[string]string{
 	"errors": "e1 NOOP junk\r\ne2 LOGIN\r\ne3 LOGIN u p\r\ne4 FETCH 0 FLAGS\r\ne5 SELECT\r\ne6 SELECT x\r\ne7 FETCH 1 (BODY[\r\ne8 STORE 1 FLAGS \\Bad(\r\n" +
 		"e9 SEARCH ((((((ALL))))))\r\ne10 XYZZY\r\ne11 APPEND x {3}\r\nabc\r\ne12 CREATE {5000}\r\ne13 UID\r\n",
 	"refused": "f1 LOGIN u p\r\nf2 CREATE {5000+}\r\n" + strings.Repeat("z", 5000) + "\r\nf3 NOOP\r\n",
-	"cancel":  "g1 AUTHENTICATE PLAIN\r\n*\r\ng2 AUTHENTICATE PLAIN\r\n!!!notbase64\r\ng3 LOGIN u p\r\ng4 IDLE\r\nNOTDONE\r\ng5 NOOP\r\n",
+	// LITERAL+ server: non-synchronising literals at and over the 4096-octet limit in every buffered position,
+	// an APPEND over the append limit (announced only), then ordinary commands
+	"plusover": "p1 LOGIN {4097+}\r\n" + strings.Repeat("u", 4097) + " pw\r\np2 LOGIN u {5000+}\r\n" + strings.Repeat("p", 5000) + "\r\np3 LOGIN u p\r\n" +
+		"p4 CREATE {4096+}\r\n" + strings.Repeat("m", 4096) + "\r\np5 CREATE {4097+}\r\n" + strings.Repeat("m", 4097) + "\r\n" +
+		"p6 SELECT INBOX\r\np7 SEARCH SUBJECT {6000+}\r\n" + strings.Repeat("s", 6000) + "\r\np8 APPEND m {5000+}\r\n" + strings.Repeat("a", 5000) + "\r\np9 NOOP\r\n",
+	"plushuge": "q1 LOGIN u p\r\nq2 APPEND m {104857601+}\r\nSubject: never sent in full\r\n",
+	"cancel":   "g1 AUTHENTICATE PLAIN\r\n*\r\ng2 AUTHENTICATE PLAIN\r\n!!!notbase64\r\ng3 LOGIN u p\r\ng4 IDLE\r\nNOTDONE\r\ng5 NOOP\r\n",
 }
 
 type caseT struct {
@@ -216,8 +234,12 @@ var panicSeen int64
 func runConn(cs *caseT) *outcome {
 	l := &connLog{done: make(chan struct{})}
 	ln, srv := ln, srv
+	plus := strings.HasPrefix(cs.Name, "plus")
+	if plus {
+		ln, srv = lnPlus, srvPlus
+	}
 	if cs.Cut == "server-close" {
-		srv, ln = newServer() // Server.Close is final: this case gets its own server
+		srv, ln = newServer(plus) // Server.Close is final: this case gets its own server
 	}
 	c, sc, err := ln.Dial2(func(server *vh.Conn) {
 		reg.Put(server, l)
